@@ -8,12 +8,36 @@ use std::f64::consts::{FRAC_PI_2, PI};
 
 pub const QP: f64 = FRAC_PI_2;
 
+/// change-directed dictionary (DESIGN §4): the numeric literals and named float constants that occur in the source functions whose
+/// text differs from the recorded one, passed by `./check` in `VERIF_DICT`.  Empty on the unchanged tree, so the base generators
+/// are unaffected there; when a function changed, its constants (new thresholds, tolerances, scale factors) are fed into every
+/// pool below, and `relate` ties arguments to functions of each other.
+pub fn dict() -> &'static [f64] {
+    static D: std::sync::OnceLock<Vec<f64>> = std::sync::OnceLock::new();
+    D.get_or_init(|| {
+        std::env::var("VERIF_DICT").unwrap_or_default().split(',')
+            .filter_map(|t| t.trim().parse::<f64>().ok()).filter(|x| x.is_finite() && *x != 0.0).collect()
+    })
+}
+fn dict_pick(r: &mut Rng) -> Option<f64> {
+    let d = dict();
+    if d.is_empty() { None } else { Some(*r.pick(d)) }
+}
+/// a dictionary value, jittered: exact, a few ulps off, or scaled into its neighbourhood
+fn dict_near(r: &mut Rng) -> Option<f64> {
+    let d = dict_pick(r)?;
+    Some(match r.below(6) { 0 | 1 => d, 2 => ulps(d, r.range(-3, 3)), 3 => d * (0.1 + 0.9 * r.unit()), 4 => d * (1.0 + r.unit()), _ => -d })
+}
+
 /// the reachable-state invariant of `Angle` (DESIGN §3.6): 0 <= rem, and not within the 1e-10 snap band of π/2
 pub fn canonical_rem(rem: f64) -> bool {
     rem >= 0.0 && rem < QP && !((rem - QP).abs() < 1e-10)
 }
 
 pub fn gen_blade(r: &mut Rng) -> usize {
+    if !dict().is_empty() && r.chance(1, 10) {
+        if let Some(d) = dict_pick(r) { let d = d.abs(); if d >= 1.0 && d < 1e12 && d.fract() == 0.0 { return (d as usize + r.below(3) as usize).saturating_sub(1); } }
+    }
     (match r.below(24) {
         0..=9 => r.below(8),
         10 | 11 => 1000 + r.below(8),
@@ -30,6 +54,9 @@ pub fn gen_blade(r: &mut Rng) -> usize {
 }
 
 pub fn gen_rem(r: &mut Rng) -> f64 {
+    if !dict().is_empty() && r.chance(1, 8) {
+        if let Some(d) = dict_near(r) { let d = d.abs(); if canonical_rem(d) { return d; } if canonical_rem(QP - d) { return QP - d; } }
+    }
     let x = match r.below(20) {
         0..=4 => 0.0,
         5..=7 => (r.range(1, 11) as f64) * QP / 12.0,
@@ -52,6 +79,13 @@ fn fix_rem(x: f64, fallback: f64) -> f64 { if canonical_rem(x) { x } else { fall
 pub fn gen_angle_pair(r: &mut Rng) -> (Angle, Angle) {
     let a = gen_angle(r);
     let (ab, ar) = (a.blade(), a.rem());
+    if !dict().is_empty() && r.chance(1, 6) {
+        if let Some(d) = dict_near(r) {
+            let db = *r.pick(&[0usize, 0, 1, 2, 3, 4, 6]);
+            let b = mk_angle(ab + db, fix_rem(ar + d, fix_rem(ar - d, ar)));
+            return if r.chance(1, 2) { (a, b) } else { (b, a) };
+        }
+    }
     let b = match r.below(16) {
         0..=3 => gen_angle(r),
         4 => a,
@@ -104,6 +138,9 @@ pub fn log_uniform(r: &mut Rng, lo_exp: f64, hi_exp: f64) -> f64 {
 }
 
 pub fn gen_mag(r: &mut Rng) -> f64 {
+    if !dict().is_empty() && r.chance(1, 8) {
+        if let Some(d) = dict_near(r) { let d = d.abs(); if d >= 1e-100 && d <= 1e100 { return d; } }
+    }
     match r.below(20) {
         0 | 1 => 0.0,
         2 | 3 => 1.0,
@@ -117,6 +154,14 @@ pub fn gen_mag(r: &mut Rng) -> f64 {
 
 pub fn gen_mag_pair(r: &mut Rng) -> (f64, f64) {
     let a = gen_mag(r);
+    if !dict().is_empty() && a != 0.0 && r.chance(1, 5) {
+        // the second magnitude sits at a dictionary distance from the first: absolute, relative, or as a ratio
+        if let Some(d) = dict_near(r) {
+            let b = match r.below(5) { 0 => a + d, 1 => a * (1.0 + d), 2 => a * d.abs(), 3 => a + d * a.max(1.0), _ => a / d.abs() };
+            let b = ulps(b.abs(), r.range(-2, 2));
+            if b.is_finite() && b >= 1e-100 && b <= 1e100 { return if r.chance(1, 2) { (a, b) } else { (b, a) }; }
+        }
+    }
     let b = match r.below(10) {
         0..=3 => gen_mag(r),
         4 => a,
@@ -217,6 +262,12 @@ pub fn gen_new_args(r: &mut Rng) -> (f64, f64) {
 }
 
 pub fn gen_cartesian(r: &mut Rng) -> (f64, f64) {
+    if !dict().is_empty() && r.chance(1, 4) {
+        if let Some(d) = dict_near(r) {
+            let o = match r.below(4) { 0 => d * (0.1 + r.unit()), 1 => gen_pos(r) * if r.chance(1, 2) { -1.0 } else { 1.0 }, 2 => d, _ => d * r.unit() * 1e-3 };
+            return if r.chance(1, 2) { (d, o) } else { (o, d) };
+        }
+    }
     let m = gen_pos(r);
     let pick = |r: &mut Rng| -> f64 {
         match r.below(10) {
@@ -234,6 +285,7 @@ pub fn gen_cartesian(r: &mut Rng) -> (f64, f64) {
 }
 
 pub fn gen_factor(r: &mut Rng) -> f64 {
+    if !dict().is_empty() && r.chance(1, 5) { if let Some(d) = dict_near(r) { return d; } }
     match r.below(12) {
         0 => 0.0,
         1 => -0.0,
@@ -248,6 +300,7 @@ pub fn gen_factor(r: &mut Rng) -> f64 {
 }
 
 pub fn gen_f_generic(r: &mut Rng) -> f64 {
+    if !dict().is_empty() && r.chance(1, 5) { if let Some(d) = dict_near(r) { return d; } }
     match r.below(10) {
         0 => 0.0,
         1 => 1.0,
@@ -314,8 +367,50 @@ fn default_args(sig: &str, r: &mut Rng) -> Vec<Val> {
     out
 }
 
-/// well-formed arguments for one op (inside the properties' domain)
+/// well-formed arguments for one op (inside the properties' domain); in change-directed mode a fifth of the cases additionally
+/// tie one argument to a function of another (`relate`)
 pub fn gen_args(name: &str, sig: &str, r: &mut Rng) -> Vec<Val> {
+    let mut v = gen_args_base(name, sig, r);
+    if !dict().is_empty() && !name.starts_with("arith.") && r.chance(1, 5) { relate(&mut v, r); }
+    v
+}
+
+/// candidates computed from the other arguments: the exact ties a data-dependent comparison could be sitting on
+fn relate(v: &mut Vec<Val>, r: &mut Rng) {
+    let mut cands: Vec<f64> = Vec::new();
+    for x in v.iter() {
+        match x {
+            Val::F(f) => cands.extend_from_slice(&[*f, -*f, 1.0 / *f, *f * *f, f.abs().sqrt(), f.abs()]),
+            Val::A(a) => { let t = a.grade_angle(); cands.extend_from_slice(&[a.rem(), t, t.sin(), t.cos(), t.sin().abs(), t.cos().abs(), t.tan(), a.blade() as f64]); }
+            Val::G(g) => { let t = g.angle.grade_angle();
+                cands.extend_from_slice(&[g.mag, g.mag * g.mag, 1.0 / g.mag, g.mag.sqrt(), g.angle.rem(), t, t.sin(), t.cos(), t.sin().abs(), t.cos().abs(), t.tan().abs(),
+                                          g.mag * t.cos(), g.mag * t.sin(), g.mag * 1e-10, g.mag * f64::EPSILON]); }
+            _ => {}
+        }
+    }
+    if let Some(d) = dict_pick(r) { for c in cands.clone() { cands.push(c * d); cands.push(c + d); } }
+    let cands: Vec<f64> = cands.into_iter().filter(|c| c.is_finite()).collect();
+    if cands.is_empty() || v.is_empty() { return; }
+    let i = r.below(v.len() as u64) as usize;
+    let c = ulps(*r.pick(&cands), if r.chance(1, 2) { 0 } else { r.range(-1, 1) });
+    let others: Vec<Geonum> = v.iter().enumerate().filter(|(j, _)| *j != i).filter_map(|(_, x)| x.g()).collect();
+    v[i] = match &v[i] {
+        Val::F(_) => Val::F(c),
+        Val::G(g) => {
+            let m = c.abs();
+            let m = if m == 0.0 || (m >= 1e-100 && m <= 1e100) { m } else { g.mag };
+            let ang = if !others.is_empty() && r.chance(1, 2) {
+                let o = r.pick(&others).angle;
+                match r.below(5) { 0 => o, 1 => mk_angle(o.blade() + 4 * (1 + r.below(3) as usize), o.rem()), 2 => mk_angle(o.blade() + 2, o.rem()), 3 => mk_angle(o.blade() + 1, o.rem()), _ => mk_angle(g.angle.blade(), o.rem()) }
+            } else { g.angle };
+            Val::G(Geonum::new_with_angle(m, ang))
+        }
+        Val::A(a) => { let rem = c.abs(); Val::A(if canonical_rem(rem) { mk_angle(a.blade(), rem) } else { *a }) }
+        o => o.clone(),
+    };
+}
+
+fn gen_args_base(name: &str, sig: &str, r: &mut Rng) -> Vec<Val> {
     match name {
         "angle.new" => { let (p, d) = gen_new_args(r); vec![Val::F(p), Val::F(d)] }
         "angle.new_with_blade" => { let (p, d) = gen_new_args(r); vec![Val::N(gen_blade(r)), Val::F(p), Val::F(d)] }
